@@ -69,14 +69,36 @@ def no_break_possible(entries, alpha):
     smallest value (C14_exact_below_smallest_probability)."""
     if isclose_q(alpha, Fraction(1))[0]:
         return False
+    # States of EQUAL exact value may be visited in any order: the implementation computes their values in floats, which
+    # can differ in the last bit for non-dyadic coefficients, so its stable sort need not keep the dictionary order.
+    # The premise is therefore demanded for every order of the ties: every sum of a subset of a tie group is a
+    # possible prefix mass.
+    groups = {}
+    for p, v in entries:
+        groups.setdefault(v, []).append(p)
     g = Fraction(0)
-    for p, _ in sorted(entries, key=lambda e: e[1]):
-        g += p
+    for v in sorted(groups):
+        ps = groups[v]
+        if len(ps) > 10:
+            return False  # too many orders to enumerate: no exactness claimed
+        sums = {Fraction(0)}
+        for p in ps:
+            sums |= {x + p for x in sums}
+        for x in sums:
+            if x and g + x < alpha and alpha - (g + x) <= (RTOL + EDGE) * alpha:
+                return False
+        g += sum(ps)
         if g >= alpha:
             return True
-        if alpha - g <= (RTOL + EDGE) * alpha:
-            return False
     return False  # the mass never reaches alpha (float probabilities summing to slightly less than alpha)
+
+
+def break_can_differ(entries, alpha):
+    """model and implementation may stop the accumulation at different states: there are ties in value (whose order the
+    float evaluation of the values may change) and a tolerance break is possible.  Both results are then within the
+    proved resolution of the definition, but not necessarily of each other at 1e-9."""
+    vs = [v for _, v in entries]
+    return len(set(vs)) < len(vs) and not isclose_q(alpha, Fraction(1))[0] and not no_break_possible(entries, alpha)
 
 
 def bounds(entries, alpha):
@@ -499,7 +521,8 @@ def do_evalform(ctx, case, glits, kept):
         return
     d = g_list(f"({g_n(int(k, 2))}, {g_q(c / shots)})" for k, c in case["counts"])
     op = g_list(f"({g_q(c)}, {g_n(m)})" for c, m in total)
-    glits.append(f"CBits (Some {g_nat(n)}) {d} {op} {g_nat(n)} {g_q(alpha)} {g_q(Fraction(1, 10**9) * S + Fraction(1, 10**40))} {g_res(r)}")
+    tol = Fraction(1, 10**9) * S + Fraction(1, 10**40) + (2 * bounds(exact, a)[1] if break_can_differ(as_float, a) else 0)
+    glits.append(f"CBits (Some {g_nat(n)}) {d} {op} {g_nat(n)} {g_q(alpha)} {g_q(tol)} {g_res(r)}")
     kept.append(case)
 
 
@@ -616,7 +639,14 @@ def do_agg(ctx, case, glits, kept):
             early = accumulate_exact(as_float, a)[0] != cvar_exact(as_float, a) if not isclose_q(a, Fraction(1))[0] else False
             if early:
                 ctx.tally("branch:tolerance-break-drops-mass")
-            glits.append(g_agg(case, alpha, tol, res))
+            # model comparison: 1e-9 of the scale, except where the accumulation of model and implementation may stop at
+            # different states (ties + possible tolerance break): there each is within the proved resolution of the
+            # definition (C14_exact_or_close), so they may differ by twice that
+            tol_here = tol
+            if break_can_differ(as_float, a):
+                tol_here = tol + 2 * bounds(exact, a)[1]
+                ctx.tally("model-comparison:resolution-tolerance(ties+break)")
+            glits.append(g_agg(case, alpha, tol_here, res))
             kept.append(sub)
     for (a1, r1, b1), (a2, r2, b2) in zip(results, results[1:]):
         for i, path in enumerate(("operator", "bitstring")):
